@@ -1,7 +1,10 @@
 #!/bin/bash
-# try_seed.sh <patch.diff> <property>...  — apply a seeded change to /repo, run the quick checks, undo it straight afterwards
+# try_seed.sh <abs path of patch.diff> <property>...  — apply a seeded change to /repo, run the quick checks, undo it
+# straight afterwards.  Serialised against other users of /repo's working tree through /tmp/repo.lock.
 set -u
 PATCH=$1; shift
+exec 9>/tmp/repo.lock
+flock 9
 cd /repo
 git diff --quiet || { echo "/repo is dirty"; exit 2; }
 git apply "$PATCH" || { echo "patch does not apply"; exit 2; }
